@@ -211,13 +211,17 @@ def step (st : St) (line : String) : St × String :=
   | "rpush" :: _ | "rpop" :: _ | "rpushb" :: _ | "rpopb" :: _ | "rclear" :: _ =>
     match st.ring, parseRingOp (words op) with
     | some r, some rop =>
-      let (r', mo) := r.step rop
+      -- the checked model: a panic / endless loop of the model is an answer of its own
+      let (r', mo) : Ring × String := match r.step rop with
+        | .ok (r', o) => (r', obsStr o)
+        | .error (.panic _) => (r, "panic")
+        | .error .hang => (r, "hang")
       -- specification: the bounded byte FIFO, evaluated on the implementation's own output
       let (q', so) := qStep st.ringN st.ringQ rop
       let ora := if out = "panic" then some "panic"
         else if out ≠ obsStr so then some s!"ring buffer: the implementation answered '{out}', a byte queue of capacity {st.ringN} answers '{obsStr so}'"
         else none
-      ({ st with ring := some r', ringQ := q' }, verdict ora (obsStr mo) out)
+      ({ st with ring := some r', ringQ := q' }, verdict ora mo out)
     | _, _ => (st, "BAD ring op")
   | "case" :: _ :: kind :: ia :: ib :: ga :: gb :: ra :: rb :: _ =>
     let n (s : String) := s.toNat?.getD 0
